@@ -6,14 +6,15 @@ response line per request.  Strings travel as dot-separated code points ("-" = e
 import RdVerif.Model.Driver
 open RdVerif
 
-partial def loop (h : IO.FS.Stream) (out : IO.FS.Stream) : IO Unit := do
+partial def loop (h : IO.FS.Stream) (out : IO.FS.Stream) (st : Driver.State) : IO Unit := do
   let line ← h.getLine
   if line.isEmpty then return ()
   let l := if line.endsWith "\n" then (line.dropEnd 1).toString else line
-  out.putStrLn (Driver.handle (l.splitOn "\t"))
-  loop h out
+  let (st', r) := Driver.handle st (l.splitOn "\t")
+  out.putStrLn r
+  loop h out st'
 
 def main : IO Unit := do
   let out ← IO.getStdout
-  loop (← IO.getStdin) out
+  loop (← IO.getStdin) out {}
   out.flush
